@@ -821,11 +821,93 @@ func (p *TermPool) resizeSigned(x *Term, W int) *Term {
 	return p.SignExt(W-x.Sort.W, x)
 }
 
+// iteIntLeaves reports whether t is an if-then-else tree (depth <= 4) over float terms at
+// least one leaf of which is an exactly represented integer (intView).
+func (p *TermPool) iteIntLeaves(t *Term, depth int) bool {
+	if t.Op != OpIte || depth > 4 {
+		return false
+	}
+	for _, br := range t.Args[1:] {
+		if _, _, ok := p.intView(br); ok {
+			return true
+		}
+		if p.iteIntLeaves(br, depth+1) {
+			return true
+		}
+	}
+	return false
+}
+
+// liftIte distributes a binary float operation over an if-then-else operand when that exposes
+// integer-valued leaves to the intfloat rewrites: f(a, ite(c, x, y)) = ite(c, f(a, x), f(a, y)).
+// Pure equivalence; nil when it does not apply.
+func (p *TermPool) liftIte(a, b *Term, f func(x, y *Term) *Term) *Term {
+	simple := func(t *Term) bool {
+		if t.IsConst() {
+			return true
+		}
+		_, _, ok := p.intView(t)
+		return ok
+	}
+	if b.Op == OpIte && (simple(a) || a.Op == OpIte) && p.iteIntLeaves(b, 0) {
+		return p.Ite(b.Args[0], f(a, b.Args[1]), f(a, b.Args[2]))
+	}
+	if a.Op == OpIte && simple(b) && p.iteIntLeaves(a, 0) {
+		return p.Ite(a.Args[0], f(a.Args[1], b), f(a.Args[2], b))
+	}
+	return nil
+}
+
 func (p *TermPool) fpBin(op Op, a, b *Term) *Term {
 	if a.Sort != b.Sort || a.Sort.K != SFP {
 		panic("fp binop sort mismatch")
 	}
 	w := a.Sort.W
+	if op == OpFPAdd || op == OpFPSub || op == OpFPMul {
+		if r := p.liftIte(a, b, func(x, y *Term) *Term { return p.fpBin(op, x, y) }); r != nil {
+			return r
+		}
+		// an exactly represented integer (never -0) combined with a constant zero of either
+		// sign (lemmas intfloat-addsub-zero / intfloat-mul-zero, checked by selftest)
+		isZeroConst := func(t *Term) (neg bool, ok bool) {
+			if !t.IsConst() {
+				return false, false
+			}
+			signBit := uint64(1) << uint(w-1)
+			if t.C == 0 {
+				return false, true
+			}
+			if t.C == signBit {
+				return true, true
+			}
+			return false, false
+		}
+		if x, _, okx := p.intView(a); okx && !a.IsConst() {
+			if zneg, okz := isZeroConst(b); okz {
+				switch op {
+				case OpFPAdd, OpFPSub:
+					return a // x +- (+-0) = x, and +0 +- (+-0) = +0 under round-to-nearest
+				case OpFPMul:
+					xneg := p.bvCmp(OpBVSlt, x, p.BV(0, x.Sort.W))
+					pz, nz := p.FPBits(0, w), p.FPBits(uint64(1)<<uint(w-1), w)
+					if zneg {
+						return p.Ite(xneg, pz, nz)
+					}
+					return p.Ite(xneg, nz, pz)
+				}
+			}
+		}
+		if x, _, okx := p.intView(b); okx && !b.IsConst() && op == OpFPMul {
+			if zneg, okz := isZeroConst(a); okz {
+				xneg := p.bvCmp(OpBVSlt, x, p.BV(0, x.Sort.W))
+				pz, nz := p.FPBits(0, w), p.FPBits(uint64(1)<<uint(w-1), w)
+				if zneg {
+					return p.Ite(xneg, pz, nz)
+				}
+				return p.Ite(xneg, nz, pz)
+			}
+		}
+	}
 	if op == OpFPAdd || op == OpFPSub || op == OpFPMul {
 		if x1, w1, ok1 := p.intView(a); ok1 {
 			if x2, w2, ok2 := p.intView(b); ok2 {
@@ -891,6 +973,9 @@ func (p *TermPool) fpCmp(op Op, a, b *Term) *Term {
 		panic("fp cmp sort mismatch")
 	}
 	w := a.Sort.W
+	if r := p.liftIte(a, b, func(x, y *Term) *Term { return p.fpCmp(op, x, y) }); r != nil {
+		return r
+	}
 	if !(a.IsConst() && b.IsConst()) {
 		if x1, w1, ok1 := p.intView(a); ok1 {
 			if x2, w2, ok2 := p.intView(b); ok2 {
